@@ -142,19 +142,37 @@ func (w *world) waitApplied() (applied, error) {
 	}
 }
 
-func (w *world) waitPending(s, u int) error {
-	deadline := time.Now().Add(10 * time.Second)
+// waitPending waits until the two channels hold s+u items.  The counts are the driver's bookkeeping of what it
+// handed over, not an oracle: if the channels settle on another number (an unsubscription was never queued, or one too
+// many was), the observed number is returned and the caller continues with it -- the judge sees the consequences in the
+// subscriber lists and deliveries.
+var deviated int32
+
+func (w *world) waitPending(s, u int) (int, error) {
+	patience := 10 * time.Second // the first deviation of a run must be beyond doubt; later ones settle faster
+	if atomic.LoadInt32(&deviated) != 0 {
+		patience = 150 * time.Millisecond
+	}
+	deadline := time.Now().Add(patience)
+	last, since := -1, time.Now()
 	for i := 0; ; i++ {
 		a := subscribe.VerifPending(w.sp)
 		if a == s+u {
-			return nil
+			return a, nil
+		}
+		if a != last {
+			last, since = a, time.Now()
 		}
 		if i < 2000 {
 			runtime.Gosched()
 		} else {
 			time.Sleep(20 * time.Microsecond)
-			if time.Now().After(deadline) {
-				return fmt.Errorf("channels hold %d items, expected %d+%d", a, s, u)
+			if time.Now().After(deadline) && time.Since(since) > patience/2 {
+				atomic.StoreInt32(&deviated, 1)
+				return a, nil
+			}
+			if time.Now().After(deadline.Add(20 * time.Second)) {
+				return a, fmt.Errorf("channels do not settle: hold %d items, handed over %d+%d", a, s, u)
 			}
 		}
 	}
@@ -271,7 +289,10 @@ func attempt(sc kit.Scenario, nKeys int) (evs []kit.Ev, matched bool, err error)
 			want := kit.Str(op, "want")
 			ev["want"] = want
 			if !parked {
-				return nil, false, fmt.Errorf("scenario %d: step while process() is not parked", sc.Scn)
+				// the node ran out of queued items earlier than the script expected: the rest of the script does not apply
+				ev["got"] = "idle"
+				matched = false
+				break
 			}
 			w.release <- struct{}{}
 			if expS+expU > 0 {
@@ -292,6 +313,9 @@ func attempt(sc kit.Scenario, nKeys int) (evs []kit.Ev, matched bool, err error)
 			} else {
 				parked = false
 				ev["got"] = "idle"
+				if want != "" && want != "idle" {
+					matched = false
+				}
 			}
 		case "pubstart":
 			// Publish runs on its own goroutine and is held inside Notify of (gn, gk)
@@ -355,13 +379,23 @@ func attempt(sc kit.Scenario, nKeys int) (evs []kit.Ev, matched bool, err error)
 		default:
 			return nil, false, fmt.Errorf("unknown op %q", name)
 		}
-		if e := w.waitPending(expS, expU); e != nil {
+		pend, e := w.waitPending(expS, expU)
+		if e != nil {
 			return nil, false, fmt.Errorf("scenario %d op %s: %v", sc.Scn, name, e)
+		}
+		if pend != expS+expU {
+			// subscriptions are queued synchronously by Subscribe; a difference is in the unsubscriptions the watchers queue
+			ev["qdiff"] = pend - (expS + expU)
+			expU = pend - expS
+			if expU < 0 {
+				expS, expU = pend, 0
+			}
 		}
 		ev["ap"] = apList(got)
 		ev["dl"] = w.takeDeliveries()
 		ev["st"] = w.project(nKeys)
 		ev["qn"] = []int{expS, expU}
+		ev["pend"] = pend
 		ev["parked"] = parked
 		evs = append(evs, ev)
 		if !matched {
